@@ -433,6 +433,7 @@ func longRun(c *runner.Ctx, capacity int, useDefault bool, stride, mix int) {
 func run(c *runner.Ctx) {
 	bursts(c)
 	valueDependentKeys(c)
+	irreflexiveKeys(c)
 	c.Space("long-runs")
 	for _, cp := range []int{16, 64, 512} {
 		for _, stride := range []int{1, 3, 7, cp - 1, cp, cp + 1, cp + 2} {
